@@ -8,7 +8,9 @@ judge       : reference graph of the written file (Spec) vs the graph of the ori
               renumbering; own numbers; nothing else changed relative to the unedited write
 histories   : number assignments, interleaved with reference-preserving operations that are not number assignments
               (c04lib.NEUTRAL: add_cell_children_to_problem, re-append, geometry edits that add a leaf); model
-              Edit/stepE/runE, theorems C04_relink_frame / C04_wf_stepE / C04_history_neutral (Props/C04Neutral.lean)
+              Edit/stepE/runE, theorems C04_relink_frame / C04_wf_stepE / C04_history_neutral (Props/C04Neutral.lean);
+              write_to_file calls in between (c04lib.WRITE): every file written is judged against the history up to it
+              (c04lib.views); model Item/stepW/runW, theorem C04_history_writes
 """
 
 import glob
@@ -43,6 +45,7 @@ THEOREMS = [
     "C04_relink_frame",
     "C04_wf_stepE",
     "C04_history_neutral",
+    "C04_history_writes",
 ]
 
 FEATURES = {"transforms", "periodic", "boundary", "universes", "complements", "thermal", "data_placement", "shortcuts", "message"}
@@ -202,25 +205,94 @@ def _swap_then_neutral(text, nf0, rng):
                     yield {"text": text, "limit": 128, "ops": swap + [t]}
 
 
+def _judge_views(case, res, den0, denb, den1, mid_dens):
+    """the oracle on EVERY file the history writes (c04lib.views): the files of the intermediate writes first, in order, each
+    against the history up to it, then the last file against the whole history.  mid_dens[j] = (Spec reading of what the run
+    without renumberings wrote at write j, Spec reading of the file written at write j or None)"""
+    for vc, vr, tag in c04lib.views(case, res):
+        if tag is None:
+            return c04lib.judge(vc, vr, den0, denb, den1)
+        if tag >= len(mid_dens):
+            continue
+        mb, m1 = mid_dens[tag]
+        if c04lib.out_of_scope(vc, vr, den0, mb) is not None:
+            continue
+        v = c04lib.judge(vc, vr, den0, mb, m1)
+        if v is not None:
+            return v[0], f"file written by the intermediate write #{tag} (after {len(vc['ops'])} operations): " + v[1]
+    return None
+
+
+def _mid_texts(res):
+    """[(text the run without renumberings wrote at write j, text written at write j or None)]"""
+    return [(b["text"], m["text"]) for b, m in zip(res.get("base_mids", []), res.get("mids", []))]
+
+
+def _across_writes(text, nf0):
+    """on a small problem, for every kind and every ordered pair (a, b) of its objects, histories carried out across writes:
+    a leaves its number, WRITE, a returns, b takes the number a just left (undo + hand-on);  a swap through a temporary with a
+    write after each of its three assignments;  and a alone there, WRITE, and back"""
+    nums = c04lib.own_numbers(nf0)
+    w = [c04lib.WRITE, 0, 0]
+    for k in ("mat", "surf", "tr", "cell", "univ"):
+        handles = list(nums["univ"]) if k == "univ" else list(range(len(nums[k])))
+        for ia in range(len(handles)):
+            a, na = handles[ia], nums[k][ia]
+            tmp = 9000 + na
+            yield {"text": text, "limit": 128, "ops": [[k, a, tmp], w, [k, a, na]]}
+            for ib in range(len(handles)):
+                if ib == ia:
+                    continue
+                b, nb = handles[ib], nums[k][ib]
+                yield {"text": text, "limit": 128, "ops": [[k, a, tmp], w, [k, a, na], [k, b, tmp]]}
+                if ia < ib:
+                    yield {"text": text, "limit": 128, "ops": [[k, a, tmp], w, [k, b, na], w, [k, a, nb]]}
+
+
 def _one(case, den0=None):
     """run one case completely in this process: impl, Spec readings, verdict (used for confirmation, shrinking, replay)"""
     res = c04lib.run_impl(case)
     if res["read"] != "ok":
         return res, None, c04lib.judge_unwritable(case, res)
     texts = [case["text"], res["baseline"]] + ([res["written"]] if res["written"] is not None else [])
-    dens = spec.denote_many(texts, case["limit"])
+    mids = _mid_texts(res)
+    flat = [t for pair in mids for t in pair if t is not None]
+    alld = spec.denote_many(texts + flat, case["limit"])
+    dens, rest = alld[:len(texts)], alld[len(texts):]
+    mid_dens, k = [], 0
+    for b, m in mids:
+        db_ = rest[k]
+        k += 1
+        dm_ = None
+        if m is not None:
+            dm_ = rest[k]
+            k += 1
+        mid_dens.append((db_, dm_))
+    res["_mid_dens"] = mid_dens
     den1 = dens[2] if len(dens) > 2 else None
     if c04lib.out_of_scope(case, res, dens[0], dens[1]) is not None:
         return res, dens, None
-    return res, dens, c04lib.judge(case, res, dens[0], dens[1], den1)
+    return res, dens, _judge_views(case, res, dens[0], dens[1], den1, mid_dens)
 
 
 def _model_request(case, nf0):
     return {"file": nf0, "ops": case["ops"]}
 
 
-def _compare(case, res, den1, rm):
+def _compare(case, res, den1, rm, mid_dens=()):
     """canonical difference between the model's prediction and the real code, or None"""
+    # the files of the intermediate writes: the model's write of the state at that point
+    if rm.get("link") == "ok":
+        for j, ((_, dm), mf) in enumerate(zip(mid_dens, rm.get("mids", []))):
+            if dm is None:
+                continue
+            try:
+                a, b = c04lib.project(c04lib.extract(dm)[0]), c04lib.project(mf)
+            except c04lib.NotInScope as e:
+                return {"what": f"file of the intermediate write #{j} not addressable: {e}"}
+            if a != b:
+                key = next(k for k in a if a[k] != b[k])
+                return {"what": f"numbers of the file written by the intermediate write #{j} differ at {key}", "impl": a[key], "model": b[key]}
     if rm.get("link") != "ok":
         return {"what": "model cannot link a file MontePy reads" + (" although it is WellFormed (contradicts C04_end_to_end)" if rm.get("wellFormed") else ""), "model": rm}
     if res["outs"] != rm["outs"]:
@@ -263,7 +335,12 @@ def run(chk):
         "and take no reference away interleaved and (mostly) placed between the last renumbering and the write: "
         "problem.add_cell_children_to_problem(), the last member of problem.cells/surfaces/transforms removed and appended again, "
         "cell.geometry = cell.geometry & +surface / & -surface / & ~cell (the 'before' of such a case is the problem with these operations "
-        "alone); on the four small problems every swap inside a kind followed by each kind of such operation. Non-trivial = at least one assignment was accepted and the problem "
+        "alone); on the four small problems every swap inside a kind followed by each kind of such operation; and histories with "
+        "problem.write_to_file() calls in between (an object leaves its number, WRITE, returns to it; the number just left is handed on to another "
+        "object of the kind; swaps / rotations / permutations in stages with a write after each stage; writes at random places of every other "
+        "pattern; everything +1000, WRITE, and back): EVERY file written is judged against the history up to that write and compared with the "
+        "model's write of the state at that point; on the four small problems every return / hand-on / staged swap across writes for every kind "
+        "and (ordered) pair of objects. Non-trivial = at least one assignment was accepted and the problem "
         "has at least one modelled reference; distinct = distinct (text, history)."
     )
     chk.assumptions = [
@@ -327,6 +404,8 @@ def run(chk):
     per_text = chk.pick(3, 4)
     hr2 = chk.rng("histories-neutral")
     per_neutral = chk.pick(2, 3)
+    hr3 = chk.rng("histories-writes")
+    per_writes = chk.pick(2, 3)
     nf_of = {}
     for ti, ((name, text, limit), d0) in enumerate(zip(texts, dens0)):
         try:
@@ -354,6 +433,14 @@ def run(chk):
             cases.append({"text": text, "limit": limit, "ops": ops})
             origin.append(name.split(":")[0] + ":" + pattern)
             case_den0.append(d0)
+        # renumbering histories with writes in between: every file written is judged
+        for _ in range(per_writes * (4 if name.startswith("small:") else 1)):
+            ops, pattern = c04lib.gen_history_writes(hr3, nf0)
+            if not ops:
+                continue
+            cases.append({"text": text, "limit": limit, "ops": ops})
+            origin.append(name.split(":")[0] + ":" + pattern.split(":")[0])
+            case_den0.append(d0)
     nrandom = len(cases) - ncorpus
     exh = []
     for ti in (0, 1, 2, 3):
@@ -368,6 +455,10 @@ def run(chk):
     for ti in (0, 1, 2, 3):
         if ti in nf_of:
             exh += list(_swap_then_neutral(texts[ti][1], nf_of[ti], chk.rng(f"swap-neutral:{ti}")))
+    # ... and every return / hand-on / staged swap across intermediate writes
+    for ti in (0, 1, 2, 3):
+        if ti in nf_of:
+            exh += list(_across_writes(texts[ti][1], nf_of[ti]))
     for c in exh:
         cases.append(c)
         origin.append("exhaustive")
@@ -388,6 +479,14 @@ def run(chk):
             if t is not None:
                 s[key] = len(need)
                 need.append((t, c["limit"]))
+        s["mids"] = []
+        for tb, tm in _mid_texts(r):
+            pair = []
+            for t in (tb, tm):
+                pair.append(None if t is None else len(need))
+                if t is not None:
+                    need.append((t, c["limit"]))
+            s["mids"].append(pair)
         slots.append(s)
     dens = [None] * len(need)
     for limit in (80, 128):
@@ -450,6 +549,7 @@ def run(chk):
         d0 = case_den0[i] if case_den0[i] is not None else dens[slots[i]["orig"]]
         db = dens[slots[i]["base"]]
         d1 = dens[slots[i]["written"]] if "written" in slots[i] else None
+        mid_dens = [(dens[a], None if b is None else dens[b]) for a, b in slots[i]["mids"]]
         why = c04lib.out_of_scope(c, r, d0, db)
         if why is not None:
             chk.count("skip:" + why)
@@ -465,6 +565,12 @@ def run(chk):
                 seen_num = seen_num or c04lib.is_number_op(op)
                 if seen_num and not c04lib.is_number_op(op):
                     chk.count("neutral-after-renumbering:" + op[0])
+            # a write between two renumberings of the same kind (the file of that moment is judged, and whatever the write
+            # leaves behind in the objects is in front of the next renumbering)
+            ks = [op[0] for op in c["ops"]]
+            if any(k == c04lib.WRITE and any(c04lib.is_number_op(o) for o in c["ops"][:j]) and any(c04lib.is_number_op(o) for o in c["ops"][j + 1:])
+                   for j, k in enumerate(ks)):
+                chk.count("history:write-between-renumberings")
         nsites = len(c04lib.sites(nf0s[i], [])) if i in nf0s else 0
         if i in nf0s:
             for name, _, _ in c04lib.sites(nf0s[i], []).values():
@@ -476,7 +582,8 @@ def run(chk):
             own = c04lib.own_numbers(nf0s[i])
             chk.count("coincide:numbers-shared-by-two-kinds", sum(1 for n in set().union(*map(set, own.values())) if sum(1 for k in own if n in own[k]) >= 2))
         chk.note_case({"text": c["text"], "ops": c["ops"]}, accepted > 0 and nsites > 0, sample_every=400)
-        verdict = c04lib.judge(c, r, d0, db, d1)
+        chk.count("written-files-judged", 1 + len(mid_dens))
+        verdict = _judge_views(c, r, d0, db, d1, mid_dens)
         if verdict is not None:
             # confirm in this process before reporting (a loaded machine must not produce a verdict)
             r2, dens2, verdict = _one(c)
@@ -490,18 +597,19 @@ def run(chk):
                 all(sig.get(k) == v for k, v in f["signature"].items()) for f in chk.known)
             mc = _shrink(c, sig) if (not seen and len(chk.violations) < 6) else c
             r3, _, v3 = _one(mc)
-            chk.violation(sig, what if v3 is None else v3[1], {"case": mc, "written": r3.get("written"), "baseline": r3.get("baseline"), "outs": r3.get("outs")})
+            chk.violation(sig, what if v3 is None else v3[1], {"case": mc, "written": r3.get("written"), "baseline": r3.get("baseline"), "outs": r3.get("outs"),
+                                                                       "intermediate_files": [m["text"] for m in r3.get("mids", [])]})
             continue  # the state is corrupt: do not compare the rest of this case with the model
         if i in model:
             chk.traces_validated += 1
             # the hypothesis of C04_end_to_end, decided by the Lean Spec on this very file
             chk.count("hypothesis:well-formed" if model[i].get("wellFormed") else "hypothesis:NOT-well-formed")
-            diff = _compare(c, r, d1, model[i])
+            diff = _compare(c, r, d1, model[i], mid_dens)
             if diff is not None:
                 chk.disagreements_checked += 1
                 r2, dens2, _ = _one(c)
                 d1b = dens2[2] if dens2 is not None and len(dens2) > 2 else None
-                diff = _compare(c, r2, d1b, drv.batch([_model_request(c, nf0s[i])])[0]) if r2["read"] == "ok" else None
+                diff = _compare(c, r2, d1b, drv.batch([_model_request(c, nf0s[i])])[0], r2.get("_mid_dens", ())) if r2["read"] == "ok" else None
                 if diff is None:
                     chk.count("flaky:disagreement-not-reproduced")
                     continue
@@ -511,7 +619,7 @@ def run(chk):
                     rr, dd, _ = _one(cc)
                     if rr["read"] != "ok":
                         return False
-                    return _compare(cc, rr, dd[2] if len(dd) > 2 else None, drv.batch([_model_request(cc, nf0s[i])])[0]) is not None
+                    return _compare(cc, rr, dd[2] if len(dd) > 2 else None, drv.batch([_model_request(cc, nf0s[i])])[0], rr.get("_mid_dens", ())) is not None
 
                 ops = shrink_list(c["ops"], differs) if len(chk.broken) < 3 else c["ops"]
                 mc = dict(c, ops=ops)
@@ -557,7 +665,7 @@ def replay(chk, payload):
     elif drv.ok:
         try:
             nf0 = c04lib.extract(dens[0])[0]
-            diff = _compare(case, r, dens[2] if len(dens) > 2 else None, drv.batch([_model_request(case, nf0)])[0])
+            diff = _compare(case, r, dens[2] if len(dens) > 2 else None, drv.batch([_model_request(case, nf0)])[0], r.get("_mid_dens", ()))
             if diff is not None:
                 chk.broken_obligation("correspondence", "U-links", diff, case)
         except c04lib.NotInScope:
